@@ -132,6 +132,8 @@ class TocFetcher:
         logger.debug('[%d]: Start fetching...', self.port)
         # Register callback in this class for the port
         self.cf.add_port_callback(self.port, self._new_packet_cb)
+        # Stop fetching if the link is lost or closed before we are done
+        self.cf.disconnected.add_callback(self._disconnected)
 
         # Request the TOC CRC
         self.state = GET_TOC_INFO
@@ -144,9 +146,15 @@ class TocFetcher:
             pk.data = (CMD_TOC_INFO,)
             self.cf.send_packet(pk, expected_reply=(CMD_TOC_INFO,))
 
+    def _disconnected(self, link_uri):
+        """The link was lost or closed while fetching, abort"""
+        self.cf.disconnected.remove_callback(self._disconnected)
+        self.cf.remove_port_callback(self.port, self._new_packet_cb)
+
     def _toc_fetch_finished(self):
         """Callback for when the TOC fetching is finished"""
         self.cf.remove_port_callback(self.port, self._new_packet_cb)
+        self.cf.disconnected.remove_callback(self._disconnected)
         logger.debug('[%d]: Done!', self.port)
         self.finished_callback()
 
